@@ -344,3 +344,68 @@ def P30(m, R):
             R.viol(gi, gi.node, 'get_initial_param finds a parameter in a first piece of class "%s" that to_list does not read as an integer' % cls, construct=cons)
         else:
             R.ok(gi, gi.node, 'class "%s": to_list %s, get_initial_param %s' % (cls, 'int' if is_int else 'text', 'parameter' if has_param else 'None'), construct=cons)
+
+
+@rule('F14', 'selection-predicate: remove_formatting selects a setting iff no selection was requested (None) or the setting equals a requested one; '
+             'a selection that was given but scrubs to nothing selects nothing', floor=2)
+def F14(m, R):
+    """The selection variable is what the scrubber returned (or None).  Every test of the function that asks `<s> in SEL` / `not in SEL`
+    and whose other atoms only look at SEL itself is evaluated in the four scenarios SEL = None, [] (given, empty after the scrub),
+    a list containing s, a list without s.  It must be the selection predicate (True, False, True, False) or its exact complement."""
+    from ..finite import eval_guard
+    ro = m.roles
+    f = m.fn('AnsiString.remove_formatting')
+    sels = {norm(n.targets[0]) for n in f.walk() if isinstance(n, ast.Assign) and isinstance(n.targets[0], ast.Name) and call_name(n.value) == ro.SCRUB}
+    if len(sels) != 1:
+        raise AnalysisError('anchor vanished: the scrubbed selection of remove_formatting')
+    SEL = next(iter(sels))
+    tests = []
+    for n in f.walk():
+        if isinstance(n, (ast.If, ast.IfExp, ast.While)):
+            tests.append((n, n.test))
+        elif isinstance(n, ast.comprehension):
+            for c in n.ifs:
+                tests.append((c, c))
+    n_sites = 0
+    for node, t in tests:
+        members = [x for x in ast.walk(t) if isinstance(x, ast.Compare) and len(x.ops) == 1 and isinstance(x.ops[0], (ast.In, ast.NotIn)) and
+                   norm(x.comparators[0]) == SEL]
+        if not members:
+            continue
+        elem = norm(members[0].left)
+        table = []
+        for scen, truth in (('None', True), ('[]', False), ('[.. %s ..]' % elem, True), ('[.. other ..]', False)):
+            is_none, empty, has = scen == 'None', scen == '[]', scen.startswith('[.. %s' % elem)
+
+            def val(a, is_none=is_none, empty=empty, has=has):
+                tx = norm(a)
+                if tx == '%s is None' % SEL or tx == '%s == None' % SEL:
+                    return is_none
+                if tx == '%s is not None' % SEL or tx == '%s != None' % SEL:
+                    return not is_none
+                if tx == SEL:
+                    return not (is_none or empty)
+                if tx in ('len(%s) == 0' % SEL, '%s == []' % SEL):
+                    return None if is_none else empty
+                if tx in ('len(%s) > 0' % SEL, 'len(%s)' % SEL, '%s != []' % SEL, 'len(%s) != 0' % SEL):
+                    return None if is_none else not empty
+                if tx == '%s in %s' % (elem, SEL):
+                    return None if is_none else has      # membership in None raises: not a truth value
+                if tx == '%s not in %s' % (elem, SEL):
+                    return None if is_none else not has
+                return None
+            table.append((scen, truth, eval_guard(t, val)))
+        if any(g is None for _, _, g in table):
+            continue          # the test also depends on something else: not the plain selection predicate
+        n_sites += 1
+        got = [g for _, _, g in table]
+        want = [w for _, w, _ in table]
+        cons = 'selection test %s' % re.sub(r'\s+', ' ', short(t))[:60]
+        ok = got == want or got == [not w for w in want]
+        bad = next(((sc, w, g) for sc, w, g in table if g != w), None) if got != [not w for w in want] else None
+        R.check(ok, f, node if isinstance(node, ast.stmt) else t, 'selects exactly: no selection requested, or the setting is among the requested ones',
+                'with the selection %s the test %s is %s: a setting %s selected although the documented predicate says %s (a selection that scrubs to an empty '
+                'list -- ";", [[]] -- would remove every setting in the range)' % (
+                    bad[0] if bad else '?', short(t), bad[2] if bad else '?', 'is' if bad and bad[2] else 'is not', bad[1] if bad else '?'), construct=cons)
+    if n_sites == 0:
+        R.undecided(f, f.node, 'no test of remove_formatting was recognised as the selection predicate over %s' % SEL, construct='selection test')
